@@ -20,6 +20,8 @@ let () =
       | "B" :: t -> G_blk.cmd_blk t
       | "W" :: t -> G_w.cmd_w t
       | ["TRACE"] -> G_w.trace ()
+      | "MERGE" :: t -> G_tools.cmd_merge t
+      | "ICOUNT" :: t -> G_tools.cmd_icount t
       | "CRASHAT" :: _ -> out "ok"
       | "FAILONCE" :: _ -> out "ok"
       | "PRE" :: _ -> out "ok"
